@@ -17,7 +17,7 @@ func init() {
 			"(locked) the five dataTracer state fields only under dataTracer.mu; " +
 			"(reset) after every complete-message event the current envelope is cleared and, for payload-carrying messages, the expecting/actual counters are zeroed before the function returns; " +
 			"(finish) every body-end event is preceded by emitUnfinished, is added at most once per side (CAS latch / finished flag dominate the add) and the client's done-callback runs after it; " +
-			"(index) builder.add numbers request data events from reqCount and response data events from respCount and increments that counter. " +
+			"(panic) every potential panic site (index, slice, make, type assertion, division, explicit panic) reachable from the body-tracing wrappers is discharged by a guard, using the proved invariant len(prefix) <= prefixLen; (index) builder.add numbers request data events from reqCount and response data events from respCount and increments that counter. " +
 			"It does NOT decide reconstruction equality for all envelope sequences and partitions (state-machine arithmetic).",
 		NotDecided: []string{"that the reconstructed events equal the envelope sequence for every partition into reads/writes (loop arithmetic over runtime lengths)", "what the decompressors return"},
 		Assume:     []string{"io.Reader.Read(p) returns 0 <= n <= len(p)", "lock identity is the access path"},
@@ -50,6 +50,12 @@ func init() {
 		Mutant{ID: "C14-no-emit", Prop: "C14", File: fr,
 			Old: "\tdefer t.whenDone()\n\n\tt.dataTracer.emitUnfinished()\n", New: "\tdefer t.whenDone()\n",
 			Expect: []string{"finish.emit-first"}, Note: "partial final message not reported before body end"},
+		Mutant{ID: "C14-need-unchecked", Prop: "C14", File: fr,
+			Old: "\tneed := int(d.expecting - uint32(d.actual))\n\tif len(data) < need {", New: "\tneed := int(d.expecting - uint32(d.actual))\n\tif len(data) == 0 {",
+			Expect: []string{"panic."}, Note: "payload slice taken without checking that enough bytes arrived (slice panic inside Read/Write)"},
+		Mutant{ID: "C14-prefix-forgets-partial", Prop: "C14", File: fr,
+			Old: "\tneed := prefixLen - len(d.prefix)\n", New: "\tneed := prefixLen\n",
+			Expect: []string{"panic.inv."}, Note: "a partially received prefix is ignored when computing how many bytes are missing: the buffer outgrows the prefix"},
 		Mutant{ID: "C14-capture-all", Prop: "C14", File: fr,
 			Old: "} else if !d.isRequest && (d.env.Flags&0x82) != 0 {", New: "} else if (d.env.Flags&0x82) != 0 {",
 			Expect: []string{"eos-flag.capture"}, Note: "end-stream capture armed for request bodies too"},
@@ -315,6 +321,8 @@ func runC14(p *Prog, r *Report) {
 		ruleLatch(p, r, "finish.once.writer-flag", fin)
 	}
 
+	c14Panic(p, r)
+
 	// ---- index ----
 	if add := p.Func(pkgTr, "builder", "add"); add == nil {
 		r.Undecided("index", "R-WIRE", "builder.add not found")
@@ -349,6 +357,16 @@ func runC14(p *Prog, r *Report) {
 				fmt.Sprintf("%s events are not numbered from b.%s followed by its increment: message indices would not be consecutive per direction", w.typ, w.counter))
 		}
 	}
+}
+
+func c14Panic(p *Prog, r *Report) {
+	entries := []*ssa.Function{
+		p.Func(pkgTr, "tracingReader", "Read"), p.Func(pkgTr, "tracingReader", "Close"),
+		p.Func(pkgTr, "tracingResponseWriter", "Write"), p.Func(pkgTr, "tracingResponseWriter", "WriteHeader"),
+		p.Func(pkgTr, "tracingResponseWriter", "Flush"), p.Func(pkgTr, "tracingResponseWriter", "tryFinish"),
+		p.Func(pkgTr, "", "TracingRoundTripper"), p.Func(pkgTr, "", "TracingHandler"),
+	}
+	rulePanic(p, r, panicSpec{Key: "panic", Entries: entries, Floor: 10, StayIn: []string{trPath}, Invariants: tracerInvariants(p)})
 }
 
 // eventKind returns the name of the concrete event type passed to builder.add.
